@@ -224,7 +224,13 @@ def roles(repo, chk):
             a = list(args)
             if a and isinstance(a[0], SelfObj):
                 a = a[1:]
-            m0_, m1_, m2_, n_, pl = (a + [kwargs.get("p_list", [])])[:5] if len(a) < 5 else a[:5]
+            names = [x for x in gi.all_param_names() if x != "self"]
+            bound_ = dict(zip(names, a))
+            bound_.update(kwargs)
+            if any(x not in bound_ for x in names[:3]):
+                raise AnalysisError("generate_momentum_i called without its mass arguments")
+            m0_, m1_, m2_ = (bound_[x] for x in names[:3])
+            pl = bound_.get(names[4], []) if len(names) > 4 else []
             calls.append((m0_, m1_, m2_))
             ret = [("particle", m2_)]
             if len(pl) == 0:
@@ -253,67 +259,73 @@ def roles(repo, chk):
 
 # --------------------------------------------------------------------------------------- S-count
 def count(repo, chk):
-    chk.rule("S-count", "generate(): refill while force and fewer than n_iter accepted; accepted masses of each round concatenated component-wise and counted by the same component; with force every component cut to [:n_iter]; momenta built from the cut lists")
-    fn = repo.fn(K + "PhaseSpaceGenerator.generate")
-    loops = [n for n in walk_local(fn.node) if isinstance(n, ast.While)]
-    if len(loops) != 1:
-        raise AnalysisError("generate(): expected one refill loop, found %d" % len(loops))
-    lp = loops[0]
-    # the loop may only be left (with force set) when n_gen >= n_iter: decided on a grid of small integers
-    tr = Translator(repo, max_depth=1)
-    ok_test = True
-    try:
-        for g in range(0, 4):
-            for want in range(0, 4):
-                v = tr.truth(tr.eval(lp.test, {"force": True, "n_gen": sp.Integer(g), "n_iter": sp.Integer(want), "n_total": sp.Integer(want)}, fn.mod, 0), lp.test)
-                if not v and g < want:
-                    ok_test = False
-    except Unmodelled as e:
-        raise AnalysisError("generate(): refill loop condition `%s` not interpretable: %s" % (norm_text(lp.test), e))
-    chk.oblige("S-count", "refill loop `while %s` is left only when n_gen >= n_iter (force set; all (n_gen, n_iter) in 0..3)" % norm_text(lp.test), ok_test)
-    if not ok_test:
-        chk.violation("S-count", fn.key, "loop-test", "the refill loop `while %s` can be left with fewer than n_iter accepted events" % norm_text(lp.test), file=PS, line=lp.lineno)
-    # inside the loop: n_gen += (size of X) and mass_f = [concat([i, j]) for i, j in zip(mass_f, X)] for the same X
-    inc = [n for n in ast.walk(lp) if isinstance(n, ast.AugAssign) and norm_text(n.target) == "n_gen" and isinstance(n.op, ast.Add)]
-    cat = [n for n in ast.walk(lp) if isinstance(n, ast.Assign) and norm_text(n.targets[0]) == "mass_f"]
-    if len(inc) != 1 or len(cat) != 1:
-        raise AnalysisError("generate(): refill loop does not have one `n_gen += ...` and one `mass_f = ...`")
-    local = {norm_text(st.targets[0]): st.value for st in ast.walk(lp) if isinstance(st, ast.Assign) and isinstance(st.targets[0], ast.Name)}
-    val = inc[0].value
-    for _ in range(3):  # look through local aliases such as n_new = int(X[0].shape[0])
-        if isinstance(val, ast.Name) and val.id in local:
-            val = local[val.id]
-    counted = sorted({x.id for x in ast.walk(val) if isinstance(x, ast.Name)} - {"int", "len", "tf"})
-    cv = cat[0].value
-    zipped = None
-    if isinstance(cv, ast.ListComp) and len(cv.generators) == 1 and isinstance(cv.generators[0].iter, ast.Call) and norm_text(cv.generators[0].iter.func) == "zip":
-        zargs = [norm_text(a) for a in cv.generators[0].iter.args]
-        if len(zargs) == 2 and "mass_f" in zargs and "concat" in norm_text(cv.elt):
-            zipped = [a for a in zargs if a != "mass_f"][0]
-    if zipped is None or len(counted) != 1:
-        raise AnalysisError("generate(): cannot tell which object is counted (`%s`) / concatenated (`%s`)" % (norm_text(inc[0].value), norm_text(cv)))
-    ok_inc = counted[0] == zipped
-    chk.oblige("S-count", "the round's accepted masses `%s` are the ones counted (`n_gen += %s`) and concatenated onto mass_f" % (zipped, norm_text(inc[0].value)), ok_inc)
-    if not ok_inc:
-        chk.violation("S-count", fn.key, "refill", "inside the refill loop `%s` is counted into n_gen but `%s` is concatenated onto mass_f" % (counted[0], zipped), file=PS, line=lp.lineno)
-    # after the loop: if force: mass_f = [i[:n_iter] for i in mass_f]; return self.generate_momentum(mass_f)
-    body = fn.node.body
-    idx = body.index(lp)
-    cut_ok = ret_ok = False
-    for st in body[idx + 1:]:
-        if isinstance(st, ast.If) and norm_text(st.test) == "force":
-            for s2 in st.body:
-                if isinstance(s2, ast.Assign) and norm_text(s2.targets[0]) == "mass_f" and isinstance(s2.value, ast.ListComp):
-                    e = s2.value.elt
-                    if isinstance(e, ast.Subscript) and isinstance(e.slice, ast.Slice) and e.slice.lower is None and e.slice.step is None and norm_text(e.slice.upper) == "n_iter" and norm_text(s2.value.generators[0].iter) == "mass_f" and norm_text(e.value) == norm_text(s2.value.generators[0].target):
-                        cut_ok = True
-        if isinstance(st, ast.Return) and st.value is not None:
-            ret_ok = norm_text(st.value).replace(" ", "") in ("self.generate_momentum(mass_f)", "self.generate_momentum(mass=mass_f)")
-    chk.oblige("S-count", "after the loop every component of mass_f is cut to [:n_iter] when force is set: %s; momenta are built from mass_f: %s" % (cut_ok, ret_ok), cut_ok and ret_ok)
-    if not cut_ok:
-        chk.violation("S-count", fn.key, "cut", "with force=True the accepted masses are not cut to exactly n_iter events before the momenta are built", file=PS, line=lp.lineno)
-    if not ret_ok:
-        chk.violation("S-count", fn.key, "return", "generate() no longer builds the momenta from the cut list mass_f", file=PS, line=fn.lineno)
+    """generate() interpreted as a whole on token batches: generate_mass(n) hands out n fresh event tokens per mass
+    component, flatten_mass keeps a deterministic subset (at least one per round), generate_momentum is a marker.
+    Decided on the returned value: exactly n_iter events, all accepted ones, no event twice, components aligned."""
+    from ..sym import TensorList
+    chk.rule("S-count", "generate(n_iter) interpreted on batches of event tokens (n_iter = 1, 2, 5, 8, 13; acceptance patterns 1/2, 1/3, 2/3): the momenta are built from exactly n_iter accepted events, none twice, the mass components aligned event by event")
+    cls = repo.cls(K + "PhaseSpaceGenerator")
+    fn = cls.methods.get("generate")
+    need = {k: cls.methods.get(k) for k in ("generate_mass", "flatten_mass", "generate_momentum")}
+    if fn is None or any(v is None for v in need.values()):
+        raise AnalysisError("PhaseSpaceGenerator.generate / generate_mass / flatten_mass / generate_momentum vanished")
+    ncomp = 2
+    cases = 0
+    for pat_name, keep in (("every 2nd", lambda k: k % 2 == 0), ("every 3rd", lambda k: k % 3 == 0), ("two of three", lambda k: k % 3 != 1)):
+        for want in (1, 2, 5, 8, 13):
+            state = {"round": 0, "accepted": set(), "requested": []}
+
+            def gen_mass(tr_, a_, k_, n_):
+                a = [x for x in a_ if not isinstance(x, SelfObj)]
+                n_ev = int(a[0] if a else k_["n_iter"])
+                state["round"] += 1
+                state["requested"].append(n_ev)
+                if state["round"] > 40:
+                    raise AnalysisError("generate(): the refill loop does not terminate in the abstract run")
+                return [TensorList((state["round"], k, c) for k in range(n_ev)) for c in range(ncomp)]
+
+            def flat_mass(tr_, a_, k_, n_):
+                a = [x for x in a_ if not isinstance(x, SelfObj)]
+                ms = a[0] if a else k_["ms"]
+                out = [TensorList(x for k, x in enumerate(c) if keep(k)) for c in ms]
+                for x in out[0]:
+                    state["accepted"].add(x[:2])
+                return out
+
+            def gen_mom(tr_, a_, k_, n_):
+                a = [x for x in a_ if not isinstance(x, SelfObj)]
+                return ("momenta", a[0] if a else k_["mass"])
+
+            def numeric(tr_, d, args, kwargs, n_):
+                if d.split(".")[-1] == "concat" and isinstance(args[0], (list, tuple)) and all(isinstance(x, TensorList) for x in args[0]):
+                    return TensorList(x for part in args[0] for x in part)
+                return NotImplemented
+
+            tr = Translator(repo, hooks={need["generate_mass"].key: gen_mass, need["flatten_mass"].key: flat_mass, need["generate_momentum"].key: gen_mom, "numeric_call_first": numeric}, max_depth=2)
+            so = SelfObj(cls, {"m_nt": sp.Integer(ncomp + 2)})
+            try:
+                out = tr.call_fn(fn, [sp.Integer(want)], self_obj=so)
+            except Unmodelled as e:
+                raise AnalysisError("generate() cannot be interpreted (n_iter=%d, %s accepted): %s" % (want, pat_name, e))
+            cases += 1
+            why = None
+            if not (isinstance(out, tuple) and len(out) == 2 and out[0] == "momenta" and isinstance(out[1], list) and len(out[1]) == ncomp and all(isinstance(c, list) for c in out[1])):
+                why = "the result is not generate_momentum(<the %d mass components>): %r" % (ncomp, out if not isinstance(out, tuple) else out[:1])
+            else:
+                comps = out[1]
+                ids = [[x[:2] if isinstance(x, tuple) else None for x in c] for c in comps]
+                if any(len(c) != want for c in comps):
+                    why = "the momenta are built from %s events, %d were requested" % ([len(c) for c in comps], want)
+                elif any(i != ids[0] for i in ids) or any([x[2] for x in c] != [k] * len(c) for k, c in enumerate(comps)):
+                    why = "the mass components are no longer aligned event by event"
+                elif len(set(ids[0])) != len(ids[0]):
+                    why = "an accepted event enters the sample twice"
+                elif not set(ids[0]) <= state["accepted"]:
+                    why = "a rejected event enters the sample"
+            if why:
+                chk.violation("S-count", fn.key, "count:n=%d:%s" % (want, pat_name), "generate(%d) with %s event accepted: %s" % (want, pat_name, why), file=PS, line=fn.lineno)
+                chk.oblige("S-count", "generate(%d), %s accepted" % (want, pat_name), False)
+    chk.oblige("S-count", "generate(n_iter) returns momenta of exactly n_iter distinct accepted events, components aligned (%d abstract runs)" % cases, True)
 
 
 # --------------------------------------------------------------------------------------- E6-mono / S-bound
@@ -348,9 +360,12 @@ def bound(repo, chk, tier):
         us = list(sp.symbols("u1:%d" % (n - 1), positive=True))
         calls = []
 
+        qsyms = []
+
         def gp_hook(tr_, args, kwargs, node):
             calls.append(tuple(sp.sympify(a) for a in args[:3]))
-            return sp.Symbol("q%d" % len(calls), positive=True)
+            qsyms.append(sp.Symbol("q%d" % (len(qsyms) + 1), positive=True))
+            return qsyms[-1]
 
         k_uni = [0]
 
@@ -371,8 +386,16 @@ def bound(repo, chk, tier):
             del calls[:]
             imp = sp.sympify(tr.call_fn(cls.methods["mass_importances"], [list(ms)], self_obj=so))
             del calls[:]
-            tr.call_fn(cls.methods["get_weight"], [list(ms)], {"importances": False}, self_obj=so)
+            q_bound = list(qsyms[:len(bound_calls)])
+            k0 = len(qsyms)
+            w_plain = tr.call_fn(cls.methods["get_weight"], [list(ms)], {"importances": False}, self_obj=so)
             weight_calls = list(calls)
+            q_weight = list(qsyms[k0:])
+            del calls[:]
+            w_imp = tr.call_fn(cls.methods["get_weight"], [list(ms)], {"importances": True}, self_obj=so)
+            w_default = tr.call_fn(cls.methods["get_weight"], [list(ms)], {}, self_obj=so)
+            q_imp = list(qsyms[k0 + len(q_weight):k0 + 2 * len(q_weight)])
+            q_def = list(qsyms[k0 + 2 * len(q_weight):])
         except Unmodelled as e:
             raise AnalysisError("PhaseSpaceGenerator bookkeeping not interpretable for n=%d: %s" % (n, e))
         pos = mus + [T] + us
@@ -402,16 +425,23 @@ def bound(repo, chk, tier):
         chk.oblige("E6-flat", "n=%d: importance factor / Jacobian of the mass proposal is independent of the uniform variates (= %s)" % (n, ratio if len(str(ratio)) < 120 else "..."), flat)
         if not flat:
             chk.violation("E6-flat", K + "PhaseSpaceGenerator.mass_importances", "n=%d" % n, "n=%d: importance factor x proposal density of the system masses still depends on the generated masses (%s): accepted events are not distributed like the phase-space mass spectrum" % (n, sorted(str(x) for x in ratio.free_symbols & set(us))), file=PS, line=cls.methods["mass_importances"].lineno)
+        # the value: weight = prod(weight factors) / prod(bound factors), times the importance factor where asked for
+        try:
+            wt_max = sp.sympify(so.attrs["m_wtMax"])
+            forms = [
+                ("importances=False", sp.sympify(w_plain), sp.Mul(*q_weight) / sp.Mul(*q_bound)),
+                ("importances=True", sp.sympify(w_imp), imp * sp.Mul(*q_imp) / sp.Mul(*q_bound)),
+                ("default", sp.sympify(w_default), imp * sp.Mul(*q_def) / sp.Mul(*q_bound)),
+            ]
+        except (KeyError, sp.SympifyError, TypeError) as e:
+            raise AnalysisError("get_weight / m_wtMax are not scalar expressions in the abstract run (n=%d): %s" % (n, e))
+        for label, got_w, want_w in forms:
+            okw, _ = equal(got_w, want_w)
+            if okw is not True:
+                bad.append("get_weight(%s) is %s, not prod(q_i) / prod(q_i^max)%s" % (label, got_w, "" if label == "importances=False" else " x importance factor"))
         chk.oblige("S-bound", "n=%d: %d factors get_p(M_{i+1}, M_i, mu) bounded factor-wise by get_p(emmax, emmin, mu); importance factor in [0,1]" % (n, n - 1), not bad)
         if bad:
             chk.violation("S-bound", K + "PhaseSpaceGenerator.get_weight", "n=%d" % n, "the acceptance weight is not bounded by one for n=%d: %s" % (n, "; ".join(bad[:3])), file=PS, line=cls.methods["get_weight"].lineno)
-    # get_weight divides the product by m_wtMax and multiplies by the importance factor
-    gw = cls.methods["get_weight"]
-    txt = " ".join(norm_text(s) for s in gw.node.body if not (isinstance(s, ast.Expr) and isinstance(s.value, ast.Constant)))
-    ok_div = "wt / self.m_wtMax" in txt and "reduce_prod" in txt
-    chk.oblige("S-bound", "get_weight returns reduce_prod(factors) / self.m_wtMax (times the importance factor)", ok_div)
-    if not ok_div:
-        raise AnalysisError("get_weight no longer has the form reduce_prod(R) / self.m_wtMax")
 
 
 # --------------------------------------------------------------------------------------- T-chain
